@@ -128,15 +128,23 @@ class Ctx:
             else:
                 violations.append(o)
 
-        os.makedirs(EVIDENCE_DIR, exist_ok=True)
+        # evidence / replay files are only (re)written when the real
+        # repository is analysed; scratch copies (self-test, seeded runs)
+        # must never overwrite them
+        official = os.path.realpath(self.repo.root) == '/repo' and \
+            not os.environ.get('VERIF_NO_EVIDENCE')
+        ev_dir = EVIDENCE_DIR if official else os.path.join(
+            __import__('tempfile').gettempdir(), 'sa_scratch_evidence')
+        rp_dir = REPLAY_DIR if official else ev_dir
+        os.makedirs(ev_dir, exist_ok=True)
         lines = []
         for o, k in known_hit:
             lines.append('KNOWN-FINDING: property={} rule={} key={} :: {}'
                          .format(self.prop, o.rule, o.key, k['what']))
         replay = None
         if violations:
-            os.makedirs(REPLAY_DIR, exist_ok=True)
-            replay = os.path.join(REPLAY_DIR, '{}.{}.json'.format(
+            os.makedirs(rp_dir, exist_ok=True)
+            replay = os.path.join(rp_dir, '{}.{}.json'.format(
                 self.prop, self.tier))
             with open(replay, 'w', encoding='utf-8') as f:
                 json.dump({
@@ -204,7 +212,7 @@ class Ctx:
             'wall_s': round(time.time() - self.t0, 3),
             'violations': len(violations),
         }
-        with open(os.path.join(EVIDENCE_DIR, self.prop + '.json'), 'w',
+        with open(os.path.join(ev_dir, self.prop + '.json'), 'w',
                   encoding='utf-8') as f:
             json.dump(ev, f, indent=1, sort_keys=True)
             f.write('\n')
